@@ -286,6 +286,30 @@ func RunC12(tier string) int {
 		if len(s.DefaultPlatforms) > 0 {
 			run.Count("workspaces_with_default_platforms", 1)
 		}
+		// overlapping outputs of two targets that are ordered by dependency (legal): a target
+		// with several dependencies declares a directory output, one of its transitive
+		// dependencies in the same package a file inside that directory. The analysis that has to
+		// establish the order must leave the dependency edges alone.
+		if r.Chance(1, 3) {
+			for ti, t := range s.Targets {
+				if len(t.Deps) < 2 {
+					continue
+				}
+				var g *spec.Target
+				for l := range s.Closure([]string{t.Label()}) {
+					if c := s.Target(l); c != nil && c != t && c.Pkg == t.Pkg && (g == nil || c.Label() < g.Label()) {
+						g = c
+					}
+				}
+				if g == nil {
+					continue
+				}
+				t.Outs = append(t.Outs, spec.Out{Kind: "dir", Path: fmt.Sprintf("ovl%d.d", ti)})
+				g.Outs = append(g.Outs, spec.Out{Kind: "file", Path: fmt.Sprintf("ovl%d.d/inner.txt", ti)})
+				run.Count("workspaces_with_ordered_overlapping_outputs", 1)
+				break
+			}
+		}
 		// a platform-restricted dependency must not make the generated graph itself invalid: fine, it is a selection-time error
 		q := genQuery(r, s)
 		env, err := e1.NewEnv(st.Base, fmt.Sprintf("s%d", i), st.Grog, st.Vctl, s, grog.Config{NumWorkers: 4})
